@@ -270,6 +270,7 @@ Decoded(p, alt) ==
   CASE alt = "amt"    -> [p EXCEPT !.amt = @ + 1]
     [] alt = "seq"    -> [p EXCEPT !.seq = @ + 1]
     [] alt = "sender" -> [p EXCEPT !.mut = 1]
+    [] alt = "feeopt" -> [p EXCEPT !.mut = 2]        \* the fee option the sender chose, rewritten by the relayer
     [] alt = "src"    -> [p EXCEPT !.src = "?"]
     [] alt = "dst"    -> [p EXCEPT !.dst = "?"]
     [] OTHER          -> p                          \* none, reenc
